@@ -20,11 +20,16 @@ LEVEL_NOTE = ("proof over all byte lists: decode_message = ok implies WellFormed
               "valid message (text free of STX) is rejected; tie = decode_message / decode_frame / make_checksum models vs code")
 
 
-def valid_message(r, final=True):
+def valid_message(r, final=True, embed=False):
     text = gens.record_text(r, r.choice([1, 1, 2, 3]))
     if len(text) > 40:
         text = text[:40]
     text = text.replace(b"\x02", b"a")
+    if embed and len(text) > 3:
+        # ETX / ETB / LF inside the text are ordinary content for the decoder (only the end of the text is the terminator)
+        for _ in range(r.choice([1, 2])):
+            k = r.randrange(1, len(text))
+            text = text[:k] + r.choice([b"\x03", b"\x17", b"\r\x03", b"\n"]) + text[k:]
     return gens.frame(r.randrange(8), text, final=final)
 
 
@@ -41,8 +46,11 @@ def variants(msg):
                 continue
             yield ("subst-cs" if is_cs else ("subst-stx" if pos == 0 else "subst-content"),
                    msg[:pos] + bytes([new]) + msg[pos + 1:], True)
+    inner = msg[2:end - 2]
+    inner = inner[:-2] if inner.endswith(b"\r\x03") else inner[:-1]
+    plain = not any(b in inner for b in (3, 0x17))
     for cut in range(0, end):
-        yield ("trunc", msg[:cut], True)
+        yield ("trunc", msg[:cut], True if plain else None)
     yield ("no-crlf", msg[:end], False)
     yield ("only-cr", msg[:end] + b"\r", False)
     # removed framing elements: STX, frame number, terminator (CR ETX / ETB), one checksum char
@@ -80,7 +88,7 @@ def run(ctx):
     n_msgs = 400 if ctx.thorough else 40
     lines, impls, metas = [], [], []
     for i in range(n_msgs):
-        msg = valid_message(r, final=(i % 4 != 3))
+        msg = valid_message(r, final=(i % 4 != 3), embed=(i % 5 == 4))
         base = codecio.impl_line("dm", "latin-1", msg)
         if not base.startswith("ok"):
             s.fail({"message": hexb(msg)}, "a valid message is rejected by decode_message", "corruptions/valid-rejected")
@@ -120,6 +128,33 @@ def run(ctx):
         for l, i, m, meta in zip(lines, impls, model, metas):
             if codecio.canon_model(m) != i:
                 s.disagree({"message": hexb(meta[0]), "kind": meta[1], "mutated": hexb(meta[2])}, i, m)
+
+    # the frame number is one ASCII digit whatever codec the caller requests for the text: every value of the frame
+    # number byte (checksum matching), decoded with codecs that have digits of their own (Thai, Arabic code pages), EBCDIC,
+    # UTF-16 ...
+    q = Stream("frame-number-x-codecs")
+    codecs_ = ["latin-1", "utf-8", "ascii", "cp1251", "cp874", "tis_620", "iso8859_11", "cp864", "cp1256", "cp500", "utf-16-le", "gbk"]
+    for i in range(12 if ctx.thorough else 3):
+        base = valid_message(r, final=(i % 2 == 0))
+        end_ = len(base.rstrip(b"\r\n"))
+        content = base[1:end_ - 2]
+        for b in range(256):
+            c2 = bytes([b]) + content[1:]
+            mut = b"\x02" + c2 + gens.checksum(c2) + base[end_:]
+            for enc in codecs_:
+                ok_, res = codecio.ok_or_err(codec.decode_message, mut, enc)
+                q.evaluations += 1
+                q.nontrivial.add((i, b, enc))
+                q.count(enc)
+                if len(q.samples) < 2:
+                    q.samples.append({"message": hexb(mut), "encoding": enc})
+                if ok_ and not (48 <= b <= 57):
+                    q.fail({"message": hexb(mut), "encoding": enc, "frame_number_byte": b},
+                           "decode_message(encoding=%s) returns records for a message whose frame number byte is 0x%02X" % (enc, b),
+                           "frame-number/accepted")
+                if not ok_ and 48 <= b <= 57 and enc == "latin-1":
+                    q.fail({"message": hexb(mut), "encoding": enc}, "a valid message with frame number %c is rejected" % b,
+                           "frame-number/rejected")
 
     # large messages (tens of kilobytes, as instruments with histogram data send): substitutions around block
     # boundaries (powers of two, multiples of 4 KiB) and at random positions
@@ -166,7 +201,7 @@ def run(ctx):
         for i, m, meta in zip(impls, model, metas):
             if codecio.canon_model(m)[:2] != i:
                 big.disagree(meta, i, m[:40])
-    return [s, big]
+    return [s, q, big]
 
 
 def wellformed(m):
